@@ -6,6 +6,7 @@ agreement" cannot hold for peer-wins with ≥ 3 replicas; C06 is therefore prove
 -/
 import MstVerif.Proofs.SyncN
 import MstVerif.Proofs.Extras
+import Mathlib.Tactic.IntervalCases
 
 namespace Mst
 
@@ -26,7 +27,85 @@ def pwCycle : List (SyncOp Nat Nat) :=
    .pull 1 0]            --   harmless: replicas 0 and 1 agree
 
 theorem pwCycle_isSweep : IsSweep 3 pwCycle := by
-  sorry
+  refine ⟨?_, ?_⟩
+  · intro op hop
+    simp only [pwCycle, List.mem_cons, List.not_mem_nil, or_false] at hop
+    rcases hop with rfl | rfl | rfl | rfl | rfl | rfl <;> simp
+  · intro i j hi hj hij
+    interval_cases i <;> interval_cases j <;> simp_all [pwCycle]
+
+/-! ### The concrete states of the run
+
+Everything is closed and computable, so the effect of the start and of one period on concrete
+replica lists is established by evaluation (`rfl`; `with_unfolding_all` because `diff` sorts with
+`List.mergeSort`, which is defined by well-founded recursion). -/
+
+/-- the schedule runner at the parameters of this file -/
+private abbrev runPW (rs : List (Replica Nat Nat (List UInt8))) (ops : List (SyncOp Nat Nat)) :
+    Except String (List (Replica Nat Nat (List UInt8))) :=
+  syncRun lvl0 perfectCfg .peerWins rs ops
+
+/-- page digest of the one-node page `7 ↦ 2` under `perfectCfg` -/
+private def pwH2 : List UInt8 := [4, 0, 0, 0, 0, 0, 0, 0, 1, 0, 0, 1]
+/-- page digest of the one-node page `7 ↦ 3` under `perfectCfg` -/
+private def pwH3 : List UInt8 := [4, 0, 0, 0, 0, 0, 0, 0, 1, 0, 0, 0, 1]
+
+/-- a replica holding `7 ↦ v`, its one-page tree carrying the cache `c` -/
+private def pwRep (v : Nat) (c : Option (List UInt8)) : Replica Nat Nat (List UInt8) :=
+  { store := [(7, v)], tree := { root := .some 0 c (.cons .none 7 v .nil) .none, rootHash := c } }
+
+/-- after the three writes: values (2,2,3), no caches -/
+private def pwA0 : List (Replica Nat Nat (List UInt8)) := [pwRep 2 none, pwRep 2 none, pwRep 3 none]
+/-- after an odd number of periods: values (3,3,2), all caches filled -/
+private def pwA1 : List (Replica Nat Nat (List UInt8)) :=
+  [pwRep 3 (some pwH3), pwRep 3 (some pwH3), pwRep 2 (some pwH2)]
+/-- after an even, positive number of periods: values (2,2,3), all caches filled -/
+private def pwA2 : List (Replica Nat Nat (List UInt8)) :=
+  [pwRep 2 (some pwH2), pwRep 2 (some pwH2), pwRep 3 (some pwH3)]
+
+private theorem pw_start : runPW (freshReplicas 3) pwStart = .ok pwA0 := by
+  with_unfolding_all rfl
+
+private theorem pw_cycle0 : runPW pwA0 pwCycle = .ok pwA1 := by
+  with_unfolding_all rfl
+
+private theorem pw_cycle1 : runPW pwA1 pwCycle = .ok pwA2 := by
+  with_unfolding_all rfl
+
+private theorem pw_cycle2 : runPW pwA2 pwCycle = .ok pwA1 := by
+  with_unfolding_all rfl
+
+/-- the three states the run ever visits -/
+private def PwState (rs : List (Replica Nat Nat (List UInt8))) : Prop :=
+  rs = pwA0 ∨ rs = pwA1 ∨ rs = pwA2
+
+private theorem pw_cycles (n : Nat) :
+    ∀ rs, PwState rs → ∃ rs', runPW rs (List.replicate n pwCycle).flatten = .ok rs' ∧ PwState rs' := by
+  induction n with
+  | zero => intro rs h; exact ⟨rs, rfl, h⟩
+  | succ n ih =>
+    intro rs h
+    have hstep : ∃ rs1, runPW rs pwCycle = .ok rs1 ∧ PwState rs1 := by
+      rcases h with rfl | rfl | rfl
+      · exact ⟨pwA1, pw_cycle0, Or.inr (Or.inl rfl)⟩
+      · exact ⟨pwA2, pw_cycle1, Or.inr (Or.inr rfl)⟩
+      · exact ⟨pwA1, pw_cycle2, Or.inr (Or.inl rfl)⟩
+    obtain ⟨rs1, h1, hs1⟩ := hstep
+    obtain ⟨rs2, h2, hs2⟩ := ih rs1 hs1
+    refine ⟨rs2, ?_, hs2⟩
+    have h1' : syncRun lvl0 perfectCfg .peerWins rs pwCycle = .ok rs1 := h1
+    show syncRun lvl0 perfectCfg .peerWins rs (List.replicate (n + 1) pwCycle).flatten = .ok rs2
+    rw [List.replicate_succ, List.flatten_cons, syncRun_append, h1']
+    exact h2
+
+private theorem pwState_diverged (rs : List (Replica Nat Nat (List UInt8))) (h : PwState rs) :
+    rs.length = 3 ∧ ∃ r₁ ∈ rs, ∃ r₂ ∈ rs, r₁.store ≠ r₂.store := by
+  rcases h with rfl | rfl | rfl
+  · exact ⟨rfl, pwRep 2 none, by simp [pwA0], pwRep 3 none, by simp [pwA0], by simp [pwRep]⟩
+  · exact ⟨rfl, pwRep 3 (some pwH3), by simp [pwA1], pwRep 2 (some pwH2), by simp [pwA1],
+      by simp [pwRep]⟩
+  · exact ⟨rfl, pwRep 2 (some pwH2), by simp [pwA2], pwRep 3 (some pwH3), by simp [pwA2],
+      by simp [pwRep]⟩
 
 /-- After the start and any number of periods the three replicas never hold the same content
 (two different values are always present), although every ordered pair keeps pulling. -/
@@ -34,6 +113,13 @@ theorem peerWins_fair_schedule_never_converges (n : Nat) :
     ∃ rs : List (Replica Nat Nat (List UInt8)),
       syncRun lvl0 perfectCfg .peerWins (freshReplicas 3) (pwStart ++ (List.replicate n pwCycle).flatten) = .ok rs ∧
       rs.length = 3 ∧ ∃ r₁ ∈ rs, ∃ r₂ ∈ rs, r₁.store ≠ r₂.store := by
-  sorry
+  obtain ⟨rs, hrun, hs⟩ := pw_cycles n pwA0 (Or.inl rfl)
+  refine ⟨rs, ?_, pwState_diverged rs hs⟩
+  have h0 : syncRun lvl0 perfectCfg .peerWins (freshReplicas 3) pwStart = .ok pwA0 := pw_start
+  rw [syncRun_append, h0]
+  exact hrun
 
 end Mst
+
+#print axioms Mst.pwCycle_isSweep
+#print axioms Mst.peerWins_fair_schedule_never_converges
